@@ -103,6 +103,8 @@ def lean_load(ctx: Ctx, text: str, deps: dict | None = None):
     if deps is not None:
         req["deps"] = deps
     r = ctx.lean().call(req)
+    if r.get("loader_agree") is False:
+        ctx.broke("correspondence", "loadString (mirror of the loader as coded) vs loadStringP (pure formulation the theorems are about)", text)
     if not r.get("ok"):
         return None, r.get("err")
     if r.get("render_roundtrip") is False:
